@@ -25,13 +25,14 @@ ASSUMPTIONS = ["non-negative integer sums", "k-parameters >= 1"]
 
 def bounds(tier):
     q = tier == "quick"
-    return {"vectors": f"{{0..4}}^k for k=1..{5 if q else 8}", "weights": "{1,2,3}^k for k<=3", "k-parameter": "1..k+2",
+    return {"vectors": f"{{0..4}}^k for k=1..{5 if q else 8}", "weights": "{1,2,3}^k for k<=3; for k=2 also nine fractional weight vectors that agree pairwise to two decimals, evaluated in sequence", "k-parameter": "1..k+2",
             "long vectors": "all multisets over {4,7} with " + ("8,15,16,17,24" if q else "8,12,15,16,17,20,24,31,32,33,40,64,65") + " entries, over {0,1,2} and {1,5,9} up to " + ("17" if q else "24") + " entries, in ascending, descending and riffled order",
             "big": "{0, 1, 2**31+1, 2**32+3, 2**50+1}^k, k<=4",
             "in place": f"one list / one array object walked through {{0..3}}^k, k<={4 if q else 5}, by single-entry mutations, objective objects reused, every evaluation twice",
             "histories": "every sequence of <=3 calls (value_to_minimize on 8 vectors of 1..6 entries, sorted fast path, lower_bound on 6 vectors x 2 totals) on one object of each of 11 objectives, then all 8 vectors evaluated"}
 
 
+CLOSE_WEIGHTS = ((1 / 3, 2 / 3), (0.33, 0.67), (0.333, 0.667), (0.334, 0.666), (0.004, 0.001), (0.001, 0.004), (0.0049, 0.0011), (2.0, 1.0), (2.004, 1.004))
 LONG_ALPHABETS = ((4, 7), (0, 1, 2), (1, 5, 9))
 BIG = (0, 1, 2 ** 31 + 1, 2 ** 32 + 3, 2 ** 50 + 1)
 
@@ -175,6 +176,18 @@ def _check(acc, v):
                     acc.violation("objective", f"{spec};{nm};sorted_flag={flag}", str(list(v)),
                                   "raises" if isinstance(got, str) else "wrong_value", want, got, case)
             acc.outcome((spec, want))
+        if k == 2 and nm == "list":
+            # weight vectors that differ only from the third decimal on, evaluated one after the other on the same sums
+            # (a description or key that rounds the weights would confuse them)
+            for w in CLOSE_WEIGHTS:
+                o = repo.obj.MaximizeSmallestWeightedSum(list(w))
+                want = -min(float(s) / ww for s, ww in zip(v, w))
+                got = _val(o, mk(v), None)
+                acc.ran("objective")
+                if got != want:
+                    case = {"spec": "weighted", "vec": list(v), "container": nm, "flag": None, "weights": list(w)}
+                    acc.violation("objective", f"MaximizeSmallestWeightedSum;{nm};close-weights", f"{list(v)};w={list(w)}",
+                                  "raises" if isinstance(got, str) else "wrong_value", want, got, case)
         if k <= 3:
             for w in product((1, 2, 3), repeat=k):
                 spec = f"MaximizeSmallestWeightedSum({list(w)})"
